@@ -177,3 +177,55 @@ package server
 //@   loop 2 invariant forall j int :: 0 <= j && j < len(msgBatch) ==> (p.encryptionHandler == nil || ghost.sealed[msgBatch[j].Value])
 //@   loop 3 invariant err == nil && -1 <= rangeindex
 //@ ghost var cc bool
+
+// ---------------------------------------------------------------------------------------------
+// Commit rule and acknowledgements (properties C04, C02, C03)
+
+//@ func min serves C04, C02
+//@   safety
+//@   ensures [empty] len(v) == 0 ==> m == 0
+//@   ensures [lower-bound] forall j int :: 0 <= j && j < len(v) ==> m <= v[j]
+//@   ensures [attained] len(v) > 0 ==> (exists j int :: 0 <= j && j < len(v) && m == v[j])
+//@   loop 1 invariant 1 <= i && (len(v) > 0 ==> i <= len(v)) && (len(v) == 0 ==> m == 0)
+//@   loop 1 invariant forall j int :: 0 <= j && j < i && j < len(v) ==> m <= v[j]
+//@   loop 1 invariant len(v) > 0 ==> (exists j int :: 0 <= j && j < i && j < len(v) && m == v[j])
+//@   loop 1 invariant forall j int :: 0 <= j && j < len(v) ==> v[j] == old(v[j])
+
+// a replica's reported offset only grows
+//@ func (*replica).updateLatestOffset serves C04, C02
+//@   requires r != nil
+//@   modifies r.offset
+//@   ensures r.offset == (offset > old(r.offset) ? offset : old(r.offset))
+//@   ensures updated == (offset > old(r.offset))
+
+//@ func (*replica).getLatestOffset serves C04, C02
+//@   modifies nothing
+//@   ensures result == r.offset
+
+// processPendingMessage: the acknowledgement carries exactly this message's offset and the
+// publisher's correlation id; it is sent at once only under the LEADER policy (never for NONE / ALL).
+//@ func (*partition).processPendingMessage serves C04
+//@   requires p != nil && msg != nil
+//@   call sendAck requires [leader-only] msg.AckPolicy == client.AckPolicy_LEADER
+//@   call sendAck requires [this-message] arg1.Offset == offset && arg1.CorrelationId == msg.CorrelationID && arg1.AckInbox == msg.AckInbox && arg1.AckPolicy == msg.AckPolicy && arg1.AckError == 0
+//@   call Put requires [queued-ack] len(arg1) == 1 && isa(arg1[0], "*client.Ack") && unbox(arg1[0], "*client.Ack").Offset == offset && unbox(arg1[0], "*client.Ack").CorrelationId == msg.CorrelationID && unbox(arg1[0], "*client.Ack").AckPolicy == msg.AckPolicy && unbox(arg1[0], "*client.Ack").AckError == 0
+
+// commitLoop: nothing is committed below the minimum ISR size; the high watermark moves to the
+// minimum of the offsets reported by the in-sync snapshot; only entries at or below it leave the
+// queue, and only ALL-policy entries among them are acknowledged.
+//@ func (*partition).commitLoop$1 serves C04
+//@   ensures result == (unbox(pending, "*client.Ack").Offset <= minLatest)
+//@ func (*partition).commitLoop serves C04, C02, C03
+//@   requires p != nil
+//@   call min requires [isr-large-enough] isrSize >= p.minISR && len(arg0) == isrSize
+//@   call SetHighWatermark requires [hw-is-min] arg1 == minLatest
+//@   call sendAck requires [committed-all-only] arg1.AckPolicy == client.AckPolicy_ALL && arg1.Offset <= minLatest
+//@   ghost after call TakeUntil: ghost.checker := arg1
+//@   loop 3 invariant -1 <= rangeindex
+//@   loop 3 invariant forall k int :: 0 <= k && k < len(committed) ==> apply(ghost.checker, committed[k])
+//@ ghost var checker func(interface{}) bool
+
+// acknowledgements leave the server only through sendAck / sendTooLargeNack, entered from the functions above
+//@ callers (*partition).sendAck serves C04: (*partition).messageProcessingLoop, (*partition).processPendingMessage, (*partition).commitLoop
+//@ callers (*partition).processPendingMessage serves C04: (*partition).messageProcessingLoop
+//@ callers (*partition).sendTooLargeNack serves C04: (*partition).messageProcessingLoop
